@@ -660,7 +660,10 @@ def gen_case(r, i, unit=None) -> dict:
     if dash is not None and dash["pos"] == "cmd" and dash["file"] is not None and not overrides:
         # the same explicit file through the other entry points (a missing file is not an error for Linter(): not generated)
         x = r.random()
-        if x < 0.3:
+        broken_project_file = any(proj[k] == UNPARSABLE for k in ("yaml", "json", "pyproject"))
+        if x < 0.3 and not broken_project_file:
+            # (Linter() never opens the project's own files when config_file is given, the command line loads them first and fails
+            # on an unparsable one; which of the two the precedence rule demands is not settled by the documentation: not generated)
             case["via"] = "linter"
         elif x < 0.36:
             case["via"] = "par"
@@ -1132,7 +1135,7 @@ def run(tier: str, seed: int, replay: str | None = None) -> int:
         rep = json.loads(Path(replay).read_text())
         cases = [normalise(rep["violation"]["case"])] if "case" in rep.get("violation", {}) else []
     else:
-        n_rand = (480 if tier == "quick" else 5200) * min(scale, 3)
+        n_rand = (420 if tier == "quick" else 5200) * min(scale, 3)
         cases = (corpus_cases() + boundary_cases() + level_cases() + carrier_cases(seed) + layout_cases() + nonmap_cases() + entry_cases(tier)
                  + matrix_cases(seed, 0.45 if tier == "quick" else 1.0) + gen_cases(seed, n_rand))
         if tier == "quick":  # cap the number of CLI subprocesses: turn surplus option-free CLI cases into library runs
